@@ -46,12 +46,14 @@ def main():
 
     t0 = time.time()
     report = mod.run(args.tier)
-    if getattr(mod, "SANITY", None):
-        problems = mod.SANITY(report, args.tier)
-        if problems:
-            print("FRAMEWORK-ERROR: vacuity guard failed: " + "; ".join(problems), file=sys.stderr)
-            sys.exit(2)
+    problems = mod.SANITY(report, args.tier) if getattr(mod, "SANITY", None) else []
     code, n_fresh, known_hit = findings.verdict(pid, report, args.tier)
+    if problems and code == 0:
+        # a quiet run that explored too little proves nothing; with violations reported the run is not quiet
+        print("FRAMEWORK-ERROR: vacuity guard failed: " + "; ".join(problems), file=sys.stderr)
+        sys.exit(2)
+    if problems:
+        print("note: the vacuity guard failed as well (expected when the code under test is broken): " + "; ".join(problems))
     wall = time.time() - t0
     meta = mod.META
     path = evidence.write(
@@ -67,4 +69,13 @@ def main():
 
 
 if __name__ == "__main__":
-    main()
+    try:
+        main()
+    except SystemExit:
+        raise
+    except BaseException:  # noqa: BLE001
+        # an exception of the machinery itself is never a verdict (Python's default exit status for a traceback is 1)
+        import traceback
+        traceback.print_exc()
+        print("FRAMEWORK-ERROR: the check itself raised", file=sys.stderr)
+        sys.exit(2)
